@@ -13,7 +13,10 @@ RULE = ("Hypothesis-drawn stacks of 1-6 layers (index in [1,4] and, for the stac
         "aoi = f * asin(min(1, n_min/n0)) with f in [0, 1 - 1e-12], so every case lies below "
         "total internal reflection for every lossless medium of the stack.  Oracles (harness arithmetic only): "
         "R + T*(n_s cos th_s)/(n0 cos th0) = 1 (<= 1 when interior layers absorb, index written n + i*kappa as in "
-        "tests/test_thinfilm.py); one-layer stack vs fresnel_rs/rp/ts/tp, Fresnel energy balance, the closed forms "
+        "tests/test_thinfilm.py: kappa up to 1.5 on any drawn index, and metal-like films with Re n from 0 to 3 - mostly below 1, incl. Ag "
+        "0.05+4.2i, Au 0.2+3i, Al 0.96+6.6i - kappa 0.001 / 0.5..10, 0-0.3 um thick, on one or several interior layers; the angle of incidence is "
+        "limited by the lossless media only, so Re n < n0 sin(aoi) is the common case; the same bound is asserted element by element on "
+        "batched absorbing stacks, which also hold such films); one-layer stack vs fresnel_rs/rp/ts/tp, Fresnel energy balance, the closed forms "
         "-sin(a-b)/sin(a+b) and tan(a-b)/tan(a+b), r_p = 0 at Brewster's angle, Snell invariant; a zero-thickness layer "
         "inserted in front of any layer and a half-wave absentee layer (n d cos th = m lambda/2, m up to 1000) leave r (resp. R, T) "
         "unchanged; a batched (L,2,*B) stack equals the per-element loop.  Every stack is handed over in a drawn representation: list of "
@@ -24,7 +27,8 @@ RULE = ("Hypothesis-drawn stacks of 1-6 layers (index in [1,4] and, for the stac
         "keyword / defaulted, 'S'/'P'.  Every call is made twice on the same objects (must agree), after an optional other call "
         "(other ambient index / polarisation / wavelength / a batched call) in the same process; every array-like handed over is "
         "compared with a copy taken before (bucket ...:argument-modified); kept batched results are re-checked after a later call "
-        "(...:result-overwritten).  Non-trivial = oblique incidence (f > 0.02) "
+        "(...:result-overwritten).  Float32 stacks in the energy clause go up to f = 0.995 only (the library forms n0/n_j in "
+        "float32, so an angle within 1e-6 of the critical angle is beyond it for the library).  Non-trivial = oblique incidence (f > 0.02) "
         "and, for stack clauses, at least one layer of non-zero thickness in front of the exit medium.")
 ASSUMPTIONS = ["the last entry of a stack is the exit medium (its own thickness only adds a phase to t), as in the code and its tests",
                "an absorbing index is written n + i*kappa (the sign used by tests/test_thinfilm.py); absorbing layers are interior only",
@@ -60,6 +64,19 @@ def _index_wide():
 
 def _thick():
     return st.one_of(U.nice_float(0.0, 2.0), U.nice_float(0.0, 2.0), st.sampled_from([0.0, 0.1, 0.5]))
+
+
+def _metal():
+    """a metal-like absorbing layer: Re n well below 1 up to 3, extinction 0.5-10 (Ag 0.05+4.2i, Au 0.2+3i, Al 0.96+6.6i / 1.44+7.6i), 0-0.3 um thick"""
+    return st.fixed_dictionaries({
+        'n': st.one_of(U.nice_float(0.01, 1.0), U.nice_float(0.01, 0.3), U.nice_float(0.5, 3.0), st.sampled_from([0.05, 0.2, 0.96, 1.44, 0.0])),
+        'k': st.one_of(U.nice_float(0.5, 10.0), U.nice_float(2.0, 8.0), st.sampled_from([4.2, 3.0, 6.6, 7.6, 1e-3])),
+        'd': st.one_of(U.nice_float(0.0, 0.3), U.nice_float(0.0, 0.05), st.sampled_from([0.0, 0.005, 0.02, 0.12]))})
+
+
+def _metals():
+    """which interior layers are replaced by a metal (none in two cases out of three)"""
+    return st.one_of(st.just([]), st.just([]), st.lists(st.one_of(st.none(), _metal(), _metal()), min_size=1, max_size=5))
 
 
 def _layers(lo, hi, index=_index):
@@ -229,7 +246,7 @@ def strat_energy(tier):
         'layers': _layers(1, 6, _index_wide), 'wvl': U.nice_float(0.3, 2.0), 'n0': st.one_of(st.just(1.0), U.nice_float(1.0, 2.5)),
         'f': _f_wide(), 'pol': POL, 'form': st.sampled_from(FORMS), 'num': st.sampled_from(NUMS),
         'kappa': st.one_of(st.just([]), st.just([]), st.lists(st.one_of(st.just(0.0), U.nice_float(0.0, 1.5)), min_size=1, max_size=5)),
-        'wexp': st.sampled_from(WEXP), 'dmul': st.sampled_from(DMUL), 'argt': ARGT, 'pre': st.sampled_from(PRE),
+        'wexp': st.sampled_from(WEXP), 'dmul': st.sampled_from(DMUL), 'argt': ARGT, 'pre': st.sampled_from(PRE), 'metal': _metals(),
     })
 
 
@@ -253,10 +270,14 @@ def check_energy(case, ctx):
     kap = [0.0] * L
     for i, k in enumerate(case['kappa'][:L - 1]):   # never the exit medium
         kap[i] = k
-    absorbing = any(k > 0 for k in kap)
+    metal = {i: m for i, m in enumerate(case.get('metal', [])[:L - 1]) if m is not None}   # interior layers only
+    absorbing = any(k > 0 for k in kap) or bool(metal)
     if absorbing and num != 'float':
         num = 'float'       # complex stacks have one numeric representation
     layers = _numbers(case['layers'], num)
+    for i, m in metal.items():      # the far end of "absorbing layers": Re n < 1 and a large extinction coefficient
+        layers[i] = (float(m['n']), float(m['d']))
+        kap[i] = float(m['k'])
     dmul = 1 if absorbing else case.get('dmul', 1)   # sin / cos of the complex phase thickness overflow for kappa d / lambda > ~110: not asserted
     layers = [(n, d * dmul) for n, d in layers]
     if wexp:
@@ -271,6 +292,12 @@ def check_energy(case, ctx):
     if num == 'int' and n0 == 1.0:
         n0 = 1
     lossless_n = [n for (n, d), k in zip(layers, kap) if k == 0]
+    if num == 'f32' and f > FMAX:
+        # the library forms n0 / n_j in float32 for a float32 stack (relative rounding 6e-8): an angle placed within 1e-6 .. 1e-12 of
+        # the critical angle is then *beyond* it for the library (complex Snell angle, evanescent exit medium, |t| growing
+        # exponentially with the exit medium's thickness), i.e. outside "below total internal reflection".  Float32 stacks go up to
+        # f = 0.995, where 1 - sin(th_j) >= 3e-5 is far above the float32 rounding
+        f = FMAX
     th0 = _theta0(n0, min(lossless_n), f)
     ns = layers[-1][0]
     if absorbing:
@@ -284,7 +311,9 @@ def check_energy(case, ctx):
               'normal' if f == 0 else ('grazing>0.995' if f > FMAX else ('oblique>0.9' if f > 0.9 else 'oblique')), 'n0=1' if n0 == 1 else 'n0>1',
               'dtype:%s' % np.asarray(stack).dtype, 'all-int-oblique' if allint and f > 0.02 else 'not-all-int-oblique',
               'wexp:%s' % ('0' if wexp == 0 else 'extreme'), 'thick' if dmul > 1 else 'thin',
-              'n>30' if max(lossless_n) > 30 else 'n<=30', 'pre:' + pre, 'call:' + argt['call'])
+              'n>30' if max(lossless_n) > 30 else 'n<=30', 'pre:' + pre, 'call:' + argt['call'],
+              'metal-layers=%d' % len(metal),
+              'metal:Re(n)<n0*sin(aoi)' if any(m['n'] < n0 * math.sin(th0) for m in metal.values()) else 'metal:none-or-Re(n)-above-n0*sin(aoi)')
     aoi = math.degrees(th0)
     desc = 'stack %r (%s, %s) wvl=%r pol=%s aoi=%r deg n0=%r' % (pairs, form, np.asarray(stack).dtype, wvl, pol, aoi, n0)
     _prior(ctx, pre, stack, wvl, pol, aoi, n0)
@@ -298,7 +327,7 @@ def check_energy(case, ctx):
     what = '%s: R=%.17g T=%.17g R+T-1=%.3g (tol %.3g)' % (desc, R, T, R + T - 1, tol)
     cls = ':all-integer-stack' if allint else (':float32-stack' if num == 'f32' else '')
     if absorbing:
-        ctx.require(R + T <= 1 + tol, 'energy:%s:absorbing-gain' % pol, what)
+        ctx.require(R + T <= 1 + tol, 'energy:%s:absorbing-gain%s' % (pol, ':metal-layer' if metal else ''), what)
         ctx.require(R >= 0 and T >= 0, 'energy:%s:negative' % pol, what)
     else:
         ctx.require(abs(R + T - 1) <= tol, 'energy:%s:lossless%s' % (pol, cls), what)
@@ -476,7 +505,7 @@ def strat_batch(tier):
         'n0': st.one_of(st.just(1.0), U.nice_float(1.0, 2.0)), 'f': _f_wide(), 'pol': POL,
         'vary': st.sampled_from(['both', 'thickness', 'index']), 'absorbing': st.booleans(),
         'special': st.sampled_from(SPECIALS), 'form': st.sampled_from(BFORMS), 'num': st.sampled_from(BNUMS), 'wexp': st.sampled_from(WEXP),
-        'argt': ARGT, 'order': st.sampled_from(['batch-first', 'batch-first', 'loop-first'])})
+        'argt': ARGT, 'order': st.sampled_from(['batch-first', 'batch-first', 'loop-first']), 'metal': st.booleans()})
 
 
 def _batch_maps(case):
@@ -537,7 +566,14 @@ def check_batch(case, ctx):
     cplx = case['absorbing'] and L > 1 and num == 'float'
     if cplx:
         rng = U.rng_of(case['seed'], 19)
-        n = n + 1j * rng.uniform(0, 1, (L,) + B) * (np.arange(L) < L - 1).reshape((L,) + (1,) * len(B))
+        interior = (np.arange(L) < L - 1).reshape((L,) + (1,) * len(B))
+        n = n + 1j * rng.uniform(0, 1, (L,) + B) * interior
+        if case.get('metal', False):    # metal films among the interior samples: Re n from 0.01 to 3, extinction 0.5-10, 0-0.3 um
+            mm = (rng.uniform(0, 1, (L,) + B) < 0.5) & interior
+            nm = 10.0 ** rng.uniform(-2, 0.5, (L,) + B) + 1j * rng.uniform(0.5, 10.0, (L,) + B)
+            dm = rng.uniform(0, 0.3, (L,) + B) * (10.0 ** wexp if wexp else 1.0)
+            n = np.where(mm, nm, n)
+            d = np.where(mm & (d != 0), dm, d)
     if form.startswith('array'):
         stack = U.relayout(np.stack([n, d.astype(n.dtype) if cplx else d], axis=1), {'array': 'C', 'array-F': 'F', 'array-strided': 'strided'}[form])   # (L, 2, *B)
     elif form == 'pairs-lists':
@@ -551,7 +587,8 @@ def check_batch(case, ctx):
     ctx.label('ndim=%d' % len(B), 'L=%d' % L, 'size1' if int(np.prod(B)) == 1 else 'size>1', 'has-unit-axis' if 1 in B else 'no-unit-axis',
               'vary:' + case['vary'], 'pol:' + pol, 'complex' if cplx else 'real', 'normal' if f == 0 else 'oblique',
               'special:' + special, 'form:' + form, 'num:' + num, 'layer-with-zero-and-nonzero-thickness' if mixed_zero else 'no-mixed-zero-layer',
-              'wexp:%s' % ('0' if wexp == 0 else 'extreme'), 'order:' + case.get('order', 'batch-first'), 'call:' + argt['call'])
+              'wexp:%s' % ('0' if wexp == 0 else 'extreme'), 'order:' + case.get('order', 'batch-first'), 'call:' + argt['call'],
+              'metal-films' if cplx and case.get('metal', False) else 'no-metal-films')
     desc = 'stack shape %s (%s, %s) special=%s (%d zero thicknesses) aoi=%r n0=%r wvl=%r' % (sshape, form, np.asarray(stack).dtype, special, nz, aoi, n0, wvl)
     rl = np.empty(B, complex)
     tl = np.empty(B, complex)
@@ -570,7 +607,7 @@ def check_batch(case, ctx):
     if case.get('order', 'batch-first') != 'loop-first':
         loop()
     # next to grazing incidence / the critical angle a last-bit difference in a sine is amplified by 1/cos (1/cos^2 in the worst case)
-    cmin = max(min([math.cos(th0)] + [_cos_in(n0, th0, float(x)) for x in np.real(n).ravel()]), 1e-150)
+    cmin = max(min([math.cos(th0)] + [_cos_in(n0, th0, float(x)) for x in np.real(n[np.imag(n) == 0]).ravel()]), 1e-150)
     if num == 'f32':
         rt_ = 1e-4 + 1e-5 / cmin      # the batched and the scalar path round differently in float32 (observed 6e-4 at cos = 8e-4)
     elif f > FMAX:
@@ -580,6 +617,14 @@ def check_batch(case, ctx):
     zb = ':thickness-map-with-zeros' if mixed_zero else ''
     U.check_close(r, rl, rt_, 'batch:%s:r%s' % (pol, zb), 'batched r vs loop, %s' % desc, atol=rt_ * 0.01)
     U.check_close(t, tl, rt_, 'batch:%s:t%s' % (pol, zb), 'batched t vs loop, %s' % desc, atol=rt_ * 0.01)
+    if cplx:    # the energy bound of absorbing stacks, element by element of the batched result
+        ns = np.real(n[-1])
+        cs = np.sqrt(np.maximum(0.0, 1.0 - (n0 * math.sin(th0) / ns) ** 2))
+        Rb = np.abs(np.asarray(r)) ** 2
+        Tb = np.abs(np.asarray(t)) ** 2 * ns * cs / (n0 * math.cos(th0))
+        tole = _energy_tol(cmin)
+        ctx.require(bool(np.all(np.isfinite(Rb + Tb))) and bool(np.all(Rb + Tb <= 1 + tole)), 'batch:energy:%s:absorbing-gain' % pol,
+                    'batched absorbing stack: max R+T-1 = %.3g (tol %.3g), %s' % (float(np.max(Rb + Tb - 1)), tole, desc))
     # the caller owns the results: another batch of the same shape (layers reversed in the interior, other wavelength), then the first results again
     other = np.stack([np.real(n) + 0.5, np.real(d) * 0.5 + 0.125 * (wvl if wexp else 1.0)], axis=1)
     ctx.call(tf.multilayer_stack_rt, other, wvl * 1.1, pol, 0.0, n0)
